@@ -5,6 +5,7 @@
   `spec` by the property-shaped Spec (the oracle for the crate's answer).
 -/
 import Driver.Wire
+import Driver.FibexOps
 import DltVerif.Model.Time
 import DltVerif.Model.Fixed
 import DltVerif.Spec.Layout
@@ -357,6 +358,37 @@ def filt (w : Bool) (cfg : Spec.FilterConfig) (bs : Bytes) : String :=
     | _ => "na"
   s!"{pClass plain} -> {pClass filtered} same={same} @@ spec={spec}"
 
+/-- C06: junk ++ message ++ suffix in storage mode vs message ++ suffix -/
+def junk (j : Bytes) (m : Message) (sfx : Bytes) : String :=
+  if m.asBytesPanics then "PANIC"
+  else
+    let a := dltMessage (j ++ m.asBytes ++ sfx) none true
+    let b := dltMessage (m.asBytes ++ sfx) none true
+    let same := match a, b with
+      | .ok (.item m1, r1), .ok (.item m2, r2) => m1 == m2 && r1 == r2 && m1 == m
+      | _, _ => false
+    s!"same={pBool same} {pClass a}"
+
+/-- repeated parsing in storage mode -/
+def parseLoop : Nat → Bytes → List ParsedMessage
+  | 0, _ => []
+  | n + 1, bs =>
+    match dltMessage bs none true with
+    | .ok (res, rest) => res :: parseLoop n rest
+    | .error _ => []
+
+def stream (items : List (Bytes × Message)) : String :=
+  if items.any (fun x => x.2.asBytesPanics) then "PANIC"
+  else
+    let bs := (items.map fun x => x.1 ++ x.2.asBytes).flatten
+    let got := parseLoop (bs.length + 1) bs
+    let ok := got == items.map (fun x => ParsedMessage.item x.2)
+    s!"count={got.length} match={pBool ok}"
+
+def pFirst : Option Nat → String
+  | none => "none"
+  | some n => s!"some {n}"
+
 def dispatch (op : String) (args : List String) : Except String String :=
   match op with
   | "FROMMS" => do let n ← run nat args; pure (pTime (fromMs n))
@@ -389,7 +421,18 @@ def dispatch (op : String) (args : List String) : Except String String :=
       let e ← endian; let n ← nat; let tis ← many typeInfo n; let d ← bytes; pure (e, tis, d)) args
     pure (pCRes (constructArguments e tis d) ++ " @@ spec=" ++ pSpecConstruct (Spec.construct e tis d))
   | "SKIPSH" => do let bs ← run bytes args; pure (pSkipSh (skipStorageHeader bs))
-  | "FWD" => do let bs ← run bytes args; pure (pFwd (forwardToNextStorageHeader bs))
+  | "FWD" => do
+    let bs ← run bytes args
+    pure (pFwd (forwardToNextStorageHeader bs) ++ " @@ spec=" ++
+      (match Spec.firstPattern bs with | none => "none" | some n => s!"some {n} rest={bs.length - n}"))
+  | "JUNK" => do
+    let (j, m, sfx) ← run (do let j ← bytes; let m ← message; let s ← bytes; pure (j, m, s)) args
+    pure (junk j m sfx)
+  | "STREAM" => do
+    let items ← run (do
+      let n ← nat
+      many (do let j ← bytes; let m ← message; pure (j, m)) n) args
+    pure (stream items)
   | "CUTALL" => do let m ← run message args; pure (cutAll m ++ " @@ wf=" ++ pBool m.wf)
   | "STABLE" => do
     let (w, bs) ← run (do let w ← bool; let b ← bytes; pure (w, b)) args
@@ -411,6 +454,8 @@ def dispatch (op : String) (args : List String) : Except String String :=
   | "FILT" => do
     let (w, c, bs) ← run (do let w ← bool; let c ← filterConfig; let b ← bytes; pure (w, c, b)) args
     pure (filt w c bs)
+  | "FIBEX" => run FibexOps.fibex args
+  | "FIBEXDOC" => run FibexOps.fibexDoc args
   | "STATS" => do
     let (w, lens, tree, bs) ← run (do
       let w ← bool; let k ← nat; let lens ← many nat k; let nt ← nat; let tree ← many tok nt
